@@ -14,11 +14,13 @@ import (
 func defaultHasher[T comparable]() func(T, uint64) uint64 {
 	var zero T
 
-	if reflect.TypeOf(&zero).Elem().Kind() == reflect.Interface {
+	if t := reflect.TypeOf(&zero).Elem(); t.Kind() == reflect.Interface {
+		// Hash the interface value itself with the type descriptor of T:
+		// the runtime then dispatches on the dynamic type the way a built-in
+		// map does, which also covers nil and pointer-shaped dynamic values.
+		typ := uintptr((*iface)(unsafe.Pointer(&t)).word)
 		return func(value T, seed uint64) uint64 {
-			iValue := any(value)
-			i := (*iface)(unsafe.Pointer(&iValue))
-			return runtime_typehash64(i.typ, i.word, seed)
+			return runtime_typehash64(typ, unsafe.Pointer(&value), seed)
 		}
 	} else {
 		var iZero any = zero
